@@ -48,15 +48,15 @@ TInit == ObsInit(0) /\ l = 1 /\ failed = {}
 
 Apply(r) ==
   CASE r.e = "inc"    -> ObsInc(r.id, r.o, r.v, r.inert)
-    [] r.e = "dlv" /\ r.k = "counter" -> ObsDeliverCounter(r.id, r.v)
-    [] r.e = "dlv" /\ r.k = "gauge"   -> ObsDeliverGauge(r.id, r.v)
+    [] r.e = "dlv" /\ r.k = "counter" -> ObsDeliverCounter(r.id, r.v, r.own)
+    [] r.e = "dlv" /\ r.k = "gauge"   -> ObsDeliverGauge(r.id, r.v, r.own)
     [] r.e = "dlv" /\ r.k = "timer"   -> ObsDeliverTimer(r.t, r.id, r.v)
-    [] r.e = "updcall" -> ObsUpdateCall(r.id, r.v)
-    [] r.e = "updret"  -> ObsUpdateReturn(r.id)
+    [] r.e = "updcall" -> ObsUpdateCall(r.id, r.v, r.inert)
+    [] r.e = "updret"  -> ObsUpdateReturn(r.id, r.inert)
     [] r.e = "passb"   -> ObsPassBegin(r.p)
     [] r.e = "passe"   -> ObsPassEnd(r.p)
     [] r.e = "quiesce" -> ObsQuiesce
-    [] r.e = "flush"   -> ObsFlush
+    [] r.e = "flush"   -> ObsFlush(r.own)
     [] r.e = "rclose"  -> ObsReporterClose
     [] r.e = "closecall" -> ObsCloseCall(r.o)
     [] r.e = "closeret" -> ObsCloseReturn(r.o)
